@@ -26,6 +26,7 @@ func init() {
 			ruleReservedKeysNotDeletable(c, "R12", []string{"HEAD", "OPTIONS", ""}, "the method set of a pattern loses HEAD only with GET and never loses OPTIONS while another method remains: reserved keys are not deletable by name")
 			ruleOnlyKnownConstantKeys(c, "R13")
 			ruleRootMappedPathsAreNotPatterns(c, "R14")
+			ruleSummaryReadOnlyOfLiveNodes(c, "R15")
 		},
 	})
 	register(&Spec{
